@@ -31,9 +31,13 @@ claim("C03", "proof",
       "faces are matched by exactly one oppositely oriented copy, and ANY inside/outside assignment, gives a mesh in which every "
       "directed edge is used as often as its reverse (watertight, consistently oriented); if no two tets share their vertex "
       "set it is edge-manifold; the local boundary lemma holds for every tet without hypotheses; non-vacuity (boundary of the "
-      "4-simplex) and necessity of the extra hypothesis are kernel-checked.  NOT proved: that libfive's own complex (cells of "
-      "different octree levels, minimal-level subspace vertices, globally unique indices) satisfies that hypothesis, and the "
-      "dual-contouring mesher (per-cell patch tables, minimal-edge rule, collapse tests).  Those are decided by the oracle: "
+      "4-simplex) and necessity of the extra hypothesis are kernel-checked.  Dual contouring: with the patch tables libfive "
+      "builds at start-up (dumped from the implementation on every run into Gen/MarchTables_gen.v), Dual<3>::walk + "
+      "DCMesher::load on a UNIFORM grid gives a watertight, consistently oriented mesh for every filled/empty assignment of "
+      "the lattice points and every choice of quad diagonals (a 3 x 4096 face-configuration sweep over the real tables + a "
+      "local-support regrouping), with every triangle corner a real patch vertex.  NOT proved: grids with cells of different "
+      "octree levels (minimal-edge rule, collapsed cells, topology-safe collapse tests) and that libfive's own tetrahedral "
+      "complex satisfies the marching-tets hypothesis.  Those are decided by the oracle: "
       "Mesh::render of random closed CSG solids (rotated primitives, sharp and smooth) x 3 algorithms x workers 1..16 x "
       "resolutions x merging on/off: edge balance, no repeated vertex, valid indices, no unreferenced vertex, edge-manifold "
       "for simplex / hybrid.",
@@ -61,7 +65,10 @@ claim("C10", "proof",
       "are a permutation of the input (nothing lost, duplicated or invented); every polyline has a segment and follows input "
       "segments; on a disjoint union of directed cycles every polyline is closed; the hypothesis is shown tight.  Tie: the "
       "extracted model and the implementation weld 1500+ random soups (cycles, open paths, branching, self-loops) "
-      "identically.  Oracle (not proved: that the marching-squares pass emits cycles winding around the solid): "
+      "identically.  Emission: for the 2D patch tables libfive builds at start-up (dumped from the implementation on every run "
+      "into Gen/MarchTables_gen.v) Dual<2>::walk + DCContourer::load on a UNIFORM grid emits, for every filled / empty "
+      "assignment of the lattice points, a disjoint union of directed cycles; composed with the welding theorem every returned "
+      "contour is closed.  Oracle (not proved: grids with merged cells; that the loops wind around the solid): "
       "Contours::render of random 2D solids and slices of 3D solids: contours closed, polygon winding 0 / one common "
       "+-1, vertices in the region and within 2 feature sizes of the zero set.",
       "Trusted: Coq kernel (no axioms); extraction; harness collect / contour commands.",
